@@ -101,7 +101,7 @@ class C20(Oracle):
             for n in st.new:
                 if w.slots[n].origin in ('register-copy', 'shallow') or st.extra.get('shallow'):
                     continue
-                r = self.check_structure(w, n)
+                r = self.check_structure(w, n, st)
                 if r is not None:
                     w.violation('C20', 'shared-' + r[0], st, r[1], culprit)
                     return
@@ -117,8 +117,25 @@ class C20(Oracle):
         if Fxp.template is not want or Config.template is not None:
             w.violation('C20', 'global-template', st, {'expected_slot': w.template}, culprit)
 
-    def check_structure(self, w, n):
+    def check_structure(self, w, n, st=None):
         N = w.slots[n]
+        # a freshly derived object owns private copies of the result registers named in the
+        # configuration it inherited; pointing at a register somebody else can reach means a later
+        # operation on either side lands in the same object
+        fresh = set(st.new) if st is not None else {n}
+        for f in REG_FIELDS:
+            r = getattr(N.obj.config, '_' + f, None)
+            if isinstance(r, Fxp):
+                k = w.slot_any(r)
+                if k is not None and k not in fresh:
+                    return 'register', {'new': n, 'field': f, 'register_slot': k,
+                                        'register_origin': w.slots[k].origin}
+                for c in w.configs:
+                    if getattr(c, '_' + f, None) is r:
+                        return 'register', {'new': n, 'field': f, 'shared_with': 'caller-owned Config'}
+        for c in w.configs:
+            if N.obj.config is c:
+                return 'config', {'new': n, 'other': 'caller-owned Config'}
         for j in w.live():
             if j == n:
                 continue
